@@ -163,6 +163,12 @@ def expand(job):
                                      {"w": sg_ * 1}, {"s": sg_ * rnd.randint(0, 100000)}]) for _ in range(rnd.choice([2, 2, 3]))]
                 yield {"kind": "obj", "sum": parts, "times": rnd.choice([1, 1, 2, 3])}
                 continue
+            if rnd.random() < 0.04:
+                # arithmetic that ends at nothing, in weeks form and in unit form (P3W - P3W, P2W * 0, P1D + -P1D)
+                k_ = rnd.randint(1, 9)
+                yield {"kind": "obj", "sum": rnd.choice([[{"w": k_}, {"w": -k_}], [{"w": -k_}, {"w": k_}], [{"d": k_}, {"d": -k_}], [{"w": k_}]]),
+                       "times": rnd.choice([1, 0, 0])}
+                continue
             sg = rnd.choice([1, 1, -1])
             d = {}
             for k_, hi in (("y", 3000), ("mo", 40), ("d", 800), ("h", 100), ("mi", 3000), ("s", 100000)):
